@@ -354,17 +354,38 @@ def search_windows(ctx, filters, np, bad):
                 err = float(np.max(np.abs(tb - v)))
                 if err > 1e-9 / (area * (w - 1)):
                     bad.append(("window_closed_form", dict(inp, max_abs_err=err, index=int(np.argmax(np.abs(tb - v))))))
+            if w % 97 == 0:
+                # the returned array belongs to the caller: scribble on it, ask again, expect the same samples
+                keep = v.copy()
+                try:
+                    v[...] = 7.25
+                except (ValueError, TypeError):
+                    pass
+                v2 = win.get_impulse_response(w)
+                if not (v2.shape == keep.shape and np.array_equal(v2, keep)):
+                    bad.append(("window_repeat_after_caller_wrote", dict(inp)))
 
 
 def search_gamma(ctx, filters, np, bad):
     r = ctx.rng
+    pool = {}
     for rep in range(ctx.scale(3000, 40000)):
         order = r.choice([1, 2, 3, 4, 5, 6, 7, 8, r.randint(2, 12)])
         peak = r.choice([0.75, 0.5, 0.25, 0.9, r.uniform(0.02, 0.98)])
         w = r.choice([0, 1, 2, 3, r.randint(2, 50), r.randint(2, 500), r.randint(2, 4500)])
         inp = dict(window="GammaWindow", order=order, peak=peak, width=w)
         ctx.count("search:gamma")
-        v = filters.GammaWindow(order=order, peak=peak).get_impulse_response(w)
+        # one window object per (order, peak) serves every width asked of it (as a window shared by several computers
+        # does): its answer for a width must not depend on the widths it was asked before
+        key = (order, peak)
+        if key not in pool:
+            pool[key] = (filters.GammaWindow(order=order, peak=peak), [])
+        wobj, asked = pool[key]
+        if asked:
+            inp["same_object_asked_before"] = asked[-3:]
+            ctx.count("search:gamma:reused-object")
+        v = wobj.get_impulse_response(w)
+        asked.append(w)
         if not (isinstance(v, np.ndarray) and v.ndim == 1 and len(v) == w):
             bad.append(("gamma_length", dict(inp, got=getattr(v, "shape", None))))
             continue
@@ -560,7 +581,10 @@ def replay(ctx, rp):
     try:
         if "window" in inp:
             kw = {k: inp[k] for k in ("order", "peak") if k in inp}
-            v = getattr(filters, inp["window"])(**kw).get_impulse_response(inp["width"])
+            wobj = getattr(filters, inp["window"])(**kw)
+            for w0 in inp.get("same_object_asked_before", []):
+                wobj.get_impulse_response(w0)  # the recorded history of this window object
+            v = wobj.get_impulse_response(inp["width"])
             print("now: len=%d sum=%r min=%r argmax=%r" % (len(v), float(v.sum()) if len(v) else 0.0,
                                                         float(v.min()) if len(v) else None, int(np.argmax(v)) if len(v) else None))
         elif "case" in inp or "vals" in inp:
